@@ -80,6 +80,11 @@ CLAIMED["C12"] = ("panic-site audit (E6): path-sensitive guard facts (length, no
          "go/ssa model; wire-format assumptions (repeated elements and set oneof payloads non-nil); generated getters nil-safe; expression identity by normalised printing (a location is assumed unchanged between guard and use unless a store to it is seen on the path)",
          "DESIGN.md §3 C12")
 
+CLAIMED["C18"] = ("lockset (E3), predicated path enumeration with loop unrolling and typestate over the connected flag (E4), structural scans for concurrency constructs and channel capacities",
+         "Static, all-paths: Close/initDone handshake inside single critical sections in the required store/test order (so the context is cancelled for every relative timing), deferred closer and wait discipline, retry-loop discipline (disconnect, unconditional context check, sleep, reset; returns only after the check), BaseClient.run exit classes and the close flag read right after every Recv, Close latching the flag before closing the implementation on every path, Connected-first typestate in the gnmi and fake clients, synchronous in-order delivery, getFirst's channel capacities and late-success cleanup. Necessary conditions of termination/callback discipline for every timing; real-time bounds are not decided.",
+         "go/ssa model; context/backoff/grpc behaviour assumed; one exemption (initDone's closer reads subscribeDone on the writing goroutine) listed with reason in evidence",
+         "DESIGN.md §3 C18")
+
 NA_REASON = {}
 DEFAULT_NA = "check not built yet in this round (static rules designed in DESIGN.md section 3); not claimed until the rule runs"
 
